@@ -84,50 +84,51 @@ def check_stream(ctx, L, ex):
         msgs[k] = bytes(m)
         carried = b"".join(msgs)
         strict = False
-    payload = dict(case_payload(case), data=carried, strict=strict)
     T = "CommandResponseStream"
-    base = summary(O.run_decode(T, carried, strict=strict))
-    what = f"stream {carried.hex()[:300]} ({'strict' if strict else 'warn'})"
-    # (a) hex
-    text, ends, noise = data.draw(containers.hex_text(carried))
-    ctx.case(("hex", text), noise["ws_inside_pairs"] > 0, sample={"container": "hex", "text": text[:160]} if noise["ws_inside_pairs"] else None)
-    got = summary(O.run_decode(T, text.encode(), strict=strict, marshal=Hex.marshal))
-    if not same(ctx, "hex", got, base, dict(payload, container="hex", text=text), what + f"; hex text {text[:300]!r}"):
-        return
-    # (b) swtpm log
-    text, ends, noise = data.draw(containers.swtpm_log(msgs))
-    ctx.case(("swtpm", text), noise["ctrl_between_payload_sections"] > 0, sample={"container": "swtpm-log", "text": text[:300]} if noise["ctrl_between_payload_sections"] else None)
-    got = summary(O.run_decode(T, text.encode(), strict=strict, marshal=SWTPMLog.marshal))
-    if not same(ctx, "swtpm-log", got, base, dict(payload, container="swtpm", text=text), what + f"; log {text[:400]!r}"):
-        return
-    # (c) pcapng: what a capture carries is each TPM packet trimmed to its own size field, runts (< 10 bytes) skipped
-    cap, noise = data.draw(containers.pcapng_capture(msgs))
-    pbase = base
-    pcarried = noise.pop("carried")
-    if pcarried != carried:
-        if strict:
-            from ..runner import HarnessError
-
-            raise HarnessError("pcapng reference: a well-formed stream must be carried unchanged")
-        pbase = summary(O.run_decode(T, pcarried, strict=strict))
-    ctx.case(("pcapng", cap), noise["runts"] + noise["trailers"] > 0 or not strict, sample={"container": "pcapng", "bytes": len(cap), **noise} if noise["runts"] and noise["trailers"] else None)
-    got = summary(O.run_decode(T, cap, strict=strict, marshal=Pcapng.marshal))
-    if not same(ctx, "pcapng", got, pbase, dict(payload, container="pcapng", capture=cap), what + f"; capture of {len(cap)} bytes, noise {noise}"):
-        return
-    got = summary(O.run_decode(T, cap, strict=strict, marshal=Auto.marshal))
-    if not same(ctx, "auto-pcapng", got, pbase, dict(payload, container="auto-pcapng", capture=cap), what):
-        return
-    # (d) auto on binary and on hex text starting with a hex pair
+    # render every container once, then compare in warn mode and (also for malformed streams) in strict mode:
+    # a strict decode must raise the same error with the same details and the same remaining bytes through every container
+    hex1 = data.draw(containers.hex_text(carried))
+    log1 = data.draw(containers.swtpm_log(msgs))
+    cap, cnoise = data.draw(containers.pcapng_capture(msgs))
+    pcarried = cnoise.pop("carried")
+    hex2 = data.draw(containers.hex_text(carried))[0].lstrip(containers.WS)
+    ctx.case(("hex", hex1[0]), hex1[2]["ws_inside_pairs"] > 0, sample={"container": "hex", "text": hex1[0][:160]} if hex1[2]["ws_inside_pairs"] else None)
+    ctx.case(("swtpm", log1[0]), log1[2]["ctrl_between_payload_sections"] > 0, sample={"container": "swtpm-log", "text": log1[0][:300]} if log1[2]["ctrl_between_payload_sections"] else None)
+    ctx.case(("pcapng", cap), cnoise["runts"] + cnoise["trailers"] > 0 or mutate, sample={"container": "pcapng", "bytes": len(cap), **cnoise} if cnoise["runts"] and cnoise["trailers"] else None)
     ctx.case(("auto-binary", carried), True)
-    got = summary(O.run_decode(T, carried, strict=strict, marshal=Auto.marshal))
-    if not same(ctx, "auto-binary", got, base, dict(payload, container="auto-binary"), what):
-        return
-    text, ends, noise = data.draw(containers.hex_text(carried))
-    text = text.lstrip(containers.WS)
-    if len(text) >= 2 and text[0] in containers.HEXDIGITS and text[1] in containers.HEXDIGITS:
-        ctx.case(("auto-hex", text), True)
-        got = summary(O.run_decode(T, text.encode(), strict=strict, marshal=Auto.marshal))
-        same(ctx, "auto-hex", got, base, dict(payload, container="auto-hex", text=text), what + f"; hex text {text[:300]!r}")
+    if pcarried != carried and not mutate:
+        from ..runner import HarnessError
+
+        raise HarnessError("pcapng reference: a well-formed stream must be carried unchanged")
+    for strict in ([True] if not mutate else [False, True]):
+        payload = dict(case_payload(case), data=carried, strict=strict)
+        what = f"stream {carried.hex()[:300]} ({'strict' if strict else 'warn'})"
+        base = summary(O.run_decode(T, carried, strict=strict))
+        ctx.count(f"stream-decodes:{'strict' if strict else 'warn'}:{base[1]['kind']}")
+        # (a) hex
+        got = summary(O.run_decode(T, hex1[0].encode(), strict=strict, marshal=Hex.marshal))
+        if not same(ctx, "hex", got, base, dict(payload, container="hex", text=hex1[0]), what + f"; hex text {hex1[0][:300]!r}"):
+            return
+        # (b) swtpm log
+        got = summary(O.run_decode(T, log1[0].encode(), strict=strict, marshal=SWTPMLog.marshal))
+        if not same(ctx, "swtpm-log", got, base, dict(payload, container="swtpm", text=log1[0]), what + f"; log {log1[0][:400]!r}"):
+            return
+        # (c) pcapng: what a capture carries is each TPM packet trimmed to its own size field, runts (< 10 bytes) skipped
+        pbase = base if pcarried == carried else summary(O.run_decode(T, pcarried, strict=strict))
+        got = summary(O.run_decode(T, cap, strict=strict, marshal=Pcapng.marshal))
+        if not same(ctx, "pcapng", got, pbase, dict(payload, container="pcapng", capture=cap), what + f"; capture of {len(cap)} bytes, noise {cnoise}"):
+            return
+        got = summary(O.run_decode(T, cap, strict=strict, marshal=Auto.marshal))
+        if not same(ctx, "auto-pcapng", got, pbase, dict(payload, container="auto-pcapng", capture=cap), what):
+            return
+        # (d) auto on binary and on hex text starting with a hex pair
+        got = summary(O.run_decode(T, carried, strict=strict, marshal=Auto.marshal))
+        if not same(ctx, "auto-binary", got, base, dict(payload, container="auto-binary"), what):
+            return
+        if len(hex2) >= 2 and hex2[0] in containers.HEXDIGITS and hex2[1] in containers.HEXDIGITS:
+            got = summary(O.run_decode(T, hex2.encode(), strict=strict, marshal=Auto.marshal))
+            if not same(ctx, "auto-hex", got, base, dict(payload, container="auto-hex", text=hex2), what + f"; hex text {hex2[:300]!r}"):
+                return
 
 
 def check_structure_hex(ctx, L, ex):
